@@ -781,6 +781,18 @@ func replaceAllocaInstrs(param llvm.Value, nv llvm.Value) {
 		}
 		u = u.NextUse()
 	}
+	// The incoming memory can stand in for one local copy of the parameter only:
+	// when the value is stored into several allocas (a := p; b := p) they are
+	// distinct objects and must not end up sharing it.
+	allocas := make(map[llvm.Value]bool)
+	for _, instr := range storeInstrs {
+		if alloc := instr.Operand(1).IsAAllocaInst(); !alloc.IsNil() {
+			allocas[alloc] = true
+		}
+	}
+	if len(allocas) > 1 {
+		return
+	}
 	for _, instr := range storeInstrs {
 		if alloc := instr.Operand(1).IsAAllocaInst(); !alloc.IsNil() {
 			skips := make(map[llvm.Value]bool)
